@@ -413,12 +413,25 @@ func ruleRMW(c *Ctx) {
 		// struct that was read under an earlier acquisition of the same lock: whoever replaces that field in between
 		// (and clears the derived slot) is overwritten with a value derived from the old state
 		if bad == "" && w.cs != nil {
-			for v := range own {
+			// re-validation: the store is control dependent on a test that reads the source field again inside the
+			// store's own critical section (`if s.settings.CLI == cfg { s.cliClient = client }`)
+			revalidated := map[string]bool{}
+			for _, cc := range controlCondsPol(w.ins.Block()) {
+				for v := range backSlice(cc.Cond) {
+					if r2, ok := reads[v]; ok && r2.cs == w.cs && r2.fn == w.fn {
+						revalidated[r2.field] = true
+					}
+				}
+			}
+			for v := range sl {
 				r, ok := reads[v]
+				if ok && revalidated[r.field] {
+					continue
+				}
 				if ok && os.Getenv("HL_DBGRMW") != "" && r.fn == w.fn {
 					fmt.Printf("  derived? %s <- %s rcs=%v wcs=%v same=%v rl=%q wl=%q wAny=%v reachG=%v wG=%v\n", w.field, r.field, r.cs != nil, w.cs != nil, r.cs == w.cs, r.lock, w.lock, writersAny[r.field], ci.reachG[w.fn], writersG[r.field])
 				}
-				if !ok || r.field == w.field || r.fn != w.fn || r.cs == nil || r.cs == w.cs || strings.TrimSuffix(string(r.lock), "(R)") != strings.TrimSuffix(string(w.lock), "(R)") || r.lock == "" {
+				if !ok || r.field == w.field || r.cs == nil || r.cs == w.cs || strings.TrimSuffix(string(r.lock), "(R)") != strings.TrimSuffix(string(w.lock), "(R)") || r.lock == "" {
 					continue
 				}
 				if structOfField(r.field) != structOfField(w.field) || !writersAny[r.field] {
